@@ -211,6 +211,20 @@ pub fn endpoints() -> Vec<EndpointD> {
             }],
         },
         EndpointD {
+            name: "sameIds",
+            method: Method::GET,
+            segments: vec!["u", "sameids", "{}"],
+            handler: "same_ids",
+            args: vec![
+                arg(0, Path, "pathWord", "string", true, true, true),
+                arg(1, Query("pageToken"), "pageToken", "string", true, true, true),
+                arg(2, Query("pageSize"), "pageSize", "integer", true, false, true),
+                arg(3, Query("secretWord"), "secretWord", "string", false, true, true),
+                arg(4, Header("traceid"), "traceId", "string", true, true, true),
+                arg(5, Header("unsafeheader"), "unsafeHeader", "integer", false, false, true),
+            ],
+        },
+        EndpointD {
             name: "enumMapBody",
             method: Method::POST,
             segments: vec!["u", "enummap", "{}"],
